@@ -154,7 +154,7 @@ class Interleaved(Family):
     HTS = [0x01, 0x02, 0x03, 0x81, 0x82, 0x83, 0x00, 0x41, 0xc2]
 
     def shards(self, tier):
-        return [(nin, nout, mut, sci) for nin, nout in ((1, 1), (2, 2), (3, 1)) for mut in (False, True) for sci in (4, 5, 0)]
+        return [(nin, nout, mut, sci) for nin, nout in ((1, 1), (2, 2), (3, 1)) for mut in (False, True) for sci in (4, 5, 6)]       # not witness-program shaped: the legacy entry point asserts on those by design
 
     def cases(self, shard, tier):
         nin, nout, mut, sci = shard
